@@ -150,3 +150,84 @@ func vSpecWithOp(path string, op *spec.Operation) *spec.Swagger {
 }
 
 func vBreaking(diffs SpecDifferences) bool { return diffs.BreakingChangeCount() > 0 }
+
+// ---- string definition ------------------------------------------------------------
+
+type vStrDef struct {
+	format           string // "", password, date
+	hasMaxL, hasMinL bool
+	maxL, minL       int64
+	pattern          string // "", a, b
+	enumN            int
+	enum             [2]int // indices into vEnumWords
+	required         bool
+}
+
+var vEnumWords = []string{"a", "b", "c"}
+
+func vMakeStrDef(tag string, withFormat bool) vStrDef {
+	d := vStrDef{}
+	if withFormat {
+		d.format = []string{"", "password", "date"}[vChoice(tag+".format", 3)]
+	}
+	d.hasMaxL, d.hasMinL = vBool(tag+".hasMaxLen"), vBool(tag+".hasMinLen")
+	d.maxL, d.minL = vI64(tag+".maxLen"), vI64(tag+".minLen")
+	vAssume(vAnd(d.maxL >= 0, d.minL >= 0))
+	d.pattern = vOneOf(tag+".pattern", "", "a", "b")
+	d.required = vBool(tag + ".required")
+	d.enumN = vChoice(tag+".enumN", 3)
+	for i := 0; i < d.enumN; i++ {
+		d.enum[i] = vChoice(tag+".enum", 3)
+	}
+	if d.enumN == 2 {
+		vAssume(d.enum[0] != d.enum[1])
+	}
+	return d
+}
+
+func (d vStrDef) validations() spec.CommonValidations {
+	cv := spec.CommonValidations{}
+	mx, mn := d.maxL, d.minL
+	cv.MaxLength = vMaybeNil(!d.hasMaxL, &mx)
+	cv.MinLength = vMaybeNil(!d.hasMinL, &mn)
+	cv.Pattern = d.pattern
+	for i := 0; i < d.enumN; i++ {
+		cv.Enum = append(cv.Enum, vEnumWords[d.enum[i]])
+	}
+	return cv
+}
+
+// abstract string request value: its length, which enum word it is (3 = none of them),
+// whether it matches pattern "a" / "b", whether it is a well-formed date
+type vStrWitness struct {
+	length int64
+	word   int
+	mA, mB bool
+	isDate bool
+}
+
+func vMakeStrWitness() vStrWitness {
+	w := vStrWitness{}
+	w.length = vI64("w.len")
+	vAssume(w.length >= 0)
+	w.word = vInt("w.word", 0, 3)
+	w.mA, w.mB, w.isDate = vBool("w.matchesA"), vBool("w.matchesB"), vBool("w.isDate")
+	return w
+}
+
+func (d vStrDef) accepts(w vStrWitness) bool {
+	ok := vOr(!d.hasMaxL, w.length <= d.maxL)
+	ok = vAnd(ok, vOr(!d.hasMinL, w.length >= d.minL))
+	ok = vAnd(ok, vOr(vStrEq(d.pattern, ""), vOr(vAnd(vStrEq(d.pattern, "a"), w.mA), vAnd(vStrEq(d.pattern, "b"), w.mB))))
+	if d.enumN > 0 {
+		in := false
+		for i := 0; i < d.enumN; i++ {
+			in = vOr(in, w.word == d.enum[i])
+		}
+		ok = vAnd(ok, in)
+	}
+	if d.format == "date" {
+		ok = vAnd(ok, w.isDate)
+	}
+	return ok
+}
